@@ -550,6 +550,7 @@ def run(ctx):
     ctx.attempt(check_offsets, ctx, db)
     ctx.attempt(check_aref, ctx, db)
     ctx.attempt(C03.check_xy_continuation, ctx, db)# a boundary split over several XY records re-loads completely
+    ctx.attempt(C03.check_writers, ctx, db)        # what is saved is a well-formed stream: every record with its data type, length, one byte swap (the re-load reads records)
     ctx.attempt(C03.check_element_buffers, ctx, db)# one PATH record per element, from a scratch array emptied per element
     ctx.attempt(C03.check_reader_state, ctx, db)
     from . import C07   # FlexPath::to_gds starts with remove_overlapping_points: re-saving a loaded path must not merge grid-adjacent vertices
